@@ -74,6 +74,31 @@ def locate(entry, key):
     return (entry[1], key[1], key[2])
 
 
+def validate(cfg, ops):
+    """raise ValueError for a case that is not a well-formed history (shrinking produces those)"""
+    ok = (isinstance(cfg.get('cap'), int) and isinstance(cfg.get('auto_reload'), bool) and
+          isinstance(cfg.get('callback'), bool) and isinstance(cfg.get('path'), list))
+    for e in cfg.get('path', []) if ok else []:
+        ok = ok and len(e) == 3 and e[0] in ('D', 'F') and e[1] in range(NDIRS) and isinstance(e[2], bool)
+    for op in ops:
+        if not ok:
+            break
+        if op[0] == 'W':
+            ok = len(op) == 6 and op[1] in range(NDIRS)
+        elif op[0] in ('T', 'X'):
+            ok = len(op) == 4 and op[1] in range(NDIRS)
+        elif op[0] == 'L':
+            r = op[1] if len(op) == 2 else None
+            ok = (isinstance(r, dict) and set(r) == {'base', 'sub', 'absd', 'rel', 'cls', 'enc', 'cb', 'fault'} and
+                  r['fault'] in (None, 'io', 'other') and
+                  (r['rel'] is None or (r['rel'][0] == 'R' and len(r['rel']) == 2) or
+                   (r['rel'][0] == 'A' and len(r['rel']) == 3 and r['rel'][1] in range(NDIRS))))
+        else:
+            ok = False
+    if not ok:
+        raise ValueError('not a history')
+
+
 # --------------------------------------------------------------------------
 # the property as a reference
 
@@ -121,13 +146,6 @@ class PropSpec(object):
                 continue
             return ('found', loc, self.fs[loc], e[0] == 'D' or e[2])
         return ('notfound',)
-
-    def would_shadow(self, loc):
-        """would creating a file at loc put a new file before the source of a cached template?"""
-        for key, e in self.cache.items():
-            if e.loc != loc and e.loc[2] == loc[2]:
-                return True
-        return False
 
     def load(self, r):
         """-> expectation dict: kind 'ok'|'err', err class, serve ('cached', token) or ('new', loc,
@@ -215,12 +233,16 @@ CONFIG_PATHS = [
 def gen_config(rng):
     r = rng.random()
     path = CONFIG_PATHS[0] if r < 0.35 else CONFIG_PATHS[1] if r < 0.55 else rng.choice(CONFIG_PATHS)
-    return {'cap': rng.choice([0, 1, 2, 2, 3, 25]), 'auto_reload': rng.random() < 0.6,
+    return {'cap': rng.choice([0, 1, 2, 2, 3, 4, 5, 25]), 'auto_reload': rng.random() < 0.6,
             'callback': rng.random() < 0.9, 'path': path}
 
 
+def nbases(cfg):
+    return 6 if cfg['cap'] >= 4 else 3
+
+
 def gen_req(rng, cfg, existing=()):
-    base, sub = rng.randrange(3), rng.random() < 0.15
+    base, sub = rng.randrange(nbases(cfg)), rng.random() < 0.15
     if existing and rng.random() < 0.8:
         _, sub, base = rng.choice(existing)
     r = {'base': base, 'sub': sub, 'absd': None, 'rel': None,
@@ -240,23 +262,66 @@ def gen_req(rng, cfg, existing=()):
     return r
 
 
-def gen_history(rng, maxlen=25, allow_shadow=0.15):
+def gen_history(rng, maxlen=25, allow_shadow=0.5):
     """-> (cfg, ops, shadow)"""
     cfg = gen_config(rng)
     spec = PropSpec(cfg, strict=True)
     ops = []
     shadow = False
     n = rng.randrange(4, maxlen + 1)
+    if cfg['cap'] >= 4:
+        n = max(n, maxlen - 3)
     content = 100
+    scenario = rng.random()
+    if scenario < 0.12 and cfg['path'] and all(e[1] != 2 for e in cfg['path']):
+        # an include from a template that lives outside the search path (absolute relative_to),
+        # then plain loads of the same name on the same loader: the configured path must still
+        # be the one that decides
+        b = rng.randrange(3)
+        content += 1
+        ops.append(['W', 2, False, b, content, False])
+        ops.append(['L', {'base': b, 'sub': False, 'absd': None, 'rel': ['A', 2, False], 'cls': 0, 'enc': 0,
+                          'cb': False, 'fault': None}])
+        ops.append(['L', {'base': (b + 1) % 3, 'sub': False, 'absd': None, 'rel': None, 'cls': 0, 'enc': 0,
+                          'cb': False, 'fault': None}])
+        content += 1
+        ops.append(['W', 2, False, (b + 1) % 3, content, False])
+        ops.append(['L', {'base': (b + 1) % 3, 'sub': False, 'absd': None, 'rel': None, 'cls': 0, 'enc': 0,
+                          'cb': False, 'fault': None}])
+        for op in ops:
+            if op[0] == 'L':
+                if not shadow and reveals_shadow(spec, op[1]):
+                    shadow = True
+                    spec.strict = False
+                spec.load(op[1])
+            else:
+                spec.fs_op(op)
+    elif scenario < 0.3 and cfg['cap'] >= 4 and cfg['path']:
+        # fill the cache, then re-load a middle entry before anything is evicted
+        d0 = cfg['path'][0][1]
+        k = min(cfg['cap'], 5)
+        for b in range(k):
+            content += 1
+            ops.append(['W', d0, False, b, content, False])
+        for b in range(k):
+            ops.append(['L', {'base': b, 'sub': False, 'absd': None, 'rel': None, 'cls': 0, 'enc': 0,
+                              'cb': False, 'fault': None}])
+        ops.append(['L', {'base': rng.randrange(1, k - 1), 'sub': False, 'absd': None, 'rel': None, 'cls': 0,
+                          'enc': 0, 'cb': False, 'fault': None}])
+        for op in ops:
+            if op[0] == 'L':
+                if not shadow and reveals_shadow(spec, op[1]):
+                    shadow = True
+                    spec.strict = False
+                spec.load(op[1])
+            else:
+                spec.fs_op(op)
+        n = max(n, len(ops) + 6)
     while len(ops) < n:
         x = rng.random()
-        d, sub, base = rng.randrange(NDIRS), rng.random() < 0.15, rng.randrange(3)
+        d, sub, base = rng.randrange(NDIRS), rng.random() < 0.15, rng.randrange(nbases(cfg))
         loc = (d, sub, base)
         if x < 0.24 or (not spec.fs and x < 0.6):
-            if loc not in spec.fs and cfg['auto_reload'] and spec.would_shadow(loc):
-                if rng.random() >= allow_shadow:
-                    continue
-                shadow = True
             content += 1
             op = ['W', d, sub, base, content, rng.random() < 0.08]
         elif x < 0.31:
@@ -274,12 +339,27 @@ def gen_history(rng, maxlen=25, allow_shadow=0.15):
             if resolve(cfg, r) is None:
                 continue
             op = ['L', r]
+            if not shadow and reveals_shadow(spec, r):
+                # this load is outside the hypothesis of reload_current_partial (the cached template
+                # comes from a file that is no longer the first one on the search path)
+                if rng.random() >= allow_shadow:
+                    continue
+                shadow = True
+                spec.strict = False
         ops.append(op)
         if op[0] == 'L':
             spec.load(op[1])
         else:
             spec.fs_op(op)
     return cfg, ops, shadow
+
+
+def reveals_shadow(spec, r):
+    """does the full property demand something else for this load than its proved part?"""
+    import copy
+    a, b = copy.deepcopy(spec), copy.deepcopy(spec)
+    a.strict, b.strict = True, False
+    return a.load(r) != b.load(r)
 
 
 # --------------------------------------------------------------------------
@@ -434,6 +514,10 @@ class RealRun(object):
                 'mapping': dict((k, id(c._dict[k].value)) for k in c._dict),
                 'uptodate': dict((k, id(v)) for k, v in self.loader._uptodate.items()),
                 'len': len(c)}
+
+    def path_intact(self):
+        """the configured search path is still the list it was created with"""
+        return len(self.loader.search_path) == len(self.cfg['path'])
 
     def lock_depth(self):
         lk = self.loader._lock
